@@ -9,7 +9,7 @@ func init() {
 			"exactly the coins added to the pay-out list are added to the gauge's distributed total, which is booked together with one filled epoch on every successful distribution; pay-outs are sent from the incentives module to the index-aligned receiver list; upcoming gauges become active at their start time before distribution.",
 		NotCovered:  []string{"sum over epochs ≤ deposit and module balance ≥ remainders over histories", "group gauges / volume splitting", "concentrated no-lock gauges' emission inside CL (C08)"},
 		Assumptions: []string{"bank SendCoinsFromModuleToManyAccounts pays inputs[i] to addrs[i]"},
-		MinObl:      29,
+		MinObl:      32,
 		Run:         runC09,
 	})
 }
@@ -61,4 +61,11 @@ func runC09(c *rules.Ctx) {
 	c.CallArg(GD, "incentiveskeeper.FilterLocksByMinDuration", 1, "gauge.DistributeTo.Duration", "each gauge then keeps the locks of at least its own duration")
 	c.CallArg(GD, "incentiveskeeper.FilterLocksByMinDuration", 0, "lookup(cache, lockuptypes.NativeDenom(gauge.DistributeTo.Denom))", "…out of the cached locks of its own denom")
 	c.MapKeys(GD, "lockuptypes.NativeDenom(gauge.DistributeTo.Denom)", 2, "the cache is keyed by the gauge's native denom")
+	// ---- in-place big-integer arithmetic of the share works on a copy of the lock's amount (locks are shared, cached objects)
+	c.Let("LOCKAMT", "sdkmath.Int.BigIntMut(incentiveskeeper.guaranteedNonzeroCoinAmountOf(elem(locks).Coins, lockuptypes.NativeDenom(gauge.DistributeTo.Denom)))")
+	c.CallArg(K+"distributeInternal", "big.Int.Mul", 0, "sdkmath.Int.BigIntMut(sdkmath.NewIntFromBigInt({LOCKAMT}))", "the product remaining × lock amount is computed in a fresh copy of the lock's amount, never in the lock's own big integer")
+	c.CallArg(K+"distributeInternal", "big.Int.Quo", 0, "big.Int.Mul(sdkmath.Int.BigIntMut(sdkmath.NewIntFromBigInt({LOCKAMT})), _, _) | sdkmath.Int.BigIntMut(sdkmath.NewIntFromBigInt({LOCKAMT}))", "…and divided in that same copy")
+	// ---- which locks feed the per-denom cache
+	const GL = K + "getLocksToDistributionWithMaxDuration"
+	c.WhenReturn(GL, "eq(distrTo.LockQueryType,0) & gt(distrTo.Duration,minDuration)", 0, "incentivestypes.LockupKeeper.GetLocksLongerThanDurationDenom(k.lk,ctx,lockuptypes.NativeDenom(distrTo.Denom),minDuration)", "a gauge with a longer duration still loads every lock of the native denom from the floor duration up (the cache is shared by shorter gauges)")
 }
